@@ -1,4 +1,7 @@
 import SgVerif.C44.Lemmas
+import SgVerif.C44.EnumLemmas
+import SgVerif.C44.MaxLemmas
+import SgVerif.C44.TopoLemmas
 /-
 C44 — Unfolding set algebra is correct.  Property theorems.
 
@@ -7,8 +10,10 @@ are event ids — no acyclicity or irredundancy needed), EVERY dependency relati
 `pick` (= which element `*frontier.begin()` returns, i.e. every hash order) — `PickOk` only says that `pick` returns
 an element of a non-empty list.
 
-NOT proved here (tied by the correspondence and monitored on every case only — see NOTES.md):
-`maximal_subsets_complete_nodup`, `subsets_enumerators_complete_nodup`, validity of `get_topological_ordering`.
+`maximal_subsets_complete_nodup`, `subsets_enumerators_complete_nodup` (second half of this file): the stack machine of
+`maximal_subsets_iterator` and the machines of src/xbt/utils/iter are EQUAL to recursive definitions, for all inputs, and
+these contain every qualifying subset exactly once.  `topological_ordering_valid`: `get_topological_ordering` (as fixed
+by e7a2e0d8bb) returns, on every acyclic structure, for every hash order, each event of the set exactly once, causes first.
 -/
 namespace SgVerif.C44
 
@@ -239,5 +244,262 @@ example : getAllEvents pickHead exES [2, 3] = [2, 3, 0, 1] ∧ conflictsWith pic
 
 example : Conflict exES exDep 2 1 :=
   (conflict_spec pickHead_ok exES_valid exDep 2 1 (by decide) (by decide)).mp (by decide)
+
+/-! ### the enumerators -/
+
+/-- **k-subsets**: for every `k ≥ 1` and `n`, `LazyKSubsets` (the `subsets_iterator` machine: positions `P`, backward
+search, reset) yields exactly the list `combos k [0, n)` — i.e. every `k`-element subset of the `n` positions (strictly
+increasing position lists) exactly once, in lexicographic order. -/
+theorem k_subsets_complete_nodup (k n : Nat) (hk : 0 < k) (fuel : Nat) (hf : 2 ^ n ≤ fuel) :
+    kSubsets k n fuel = combos k (List.range n) ∧ (kSubsets k n fuel).Nodup ∧
+    ∀ l, l ∈ kSubsets k n fuel ↔ l.length = k ∧ l.Pairwise (· < ·) ∧ ∀ x ∈ l, x < n := by
+  have hlen := combos_length_le k (List.range n)
+  rw [List.length_range] at hlen
+  have heq := kSubsets_eq_combos k n hk fuel (by omega)
+  rw [heq]
+  refine ⟨rfl, combos_nodup k _ List.nodup_range, ?_⟩
+  intro l
+  rw [mem_combos, List.range_eq_range', sublist_range'_iff]
+  constructor
+  · rintro ⟨⟨h1, h2⟩, h3⟩; exact ⟨h3, h1, fun x hx => by have := h2 x hx; omega⟩
+  · rintro ⟨h1, h2, h3⟩; exact ⟨⟨h2, fun x hx => by have := h3 x hx; omega⟩, h1⟩
+
+/-- **powerset**: `powerset_iterator` yields every subset of the `n` positions exactly once (by increasing size). -/
+theorem powerset_complete_nodup (n fuel : Nat) (hf : 2 ^ n ≤ fuel) :
+    powerset n fuel = (List.range (n + 1)).flatMap (fun k => combos k (List.range n)) ∧ (powerset n fuel).Nodup ∧
+    ∀ l, l ∈ powerset n fuel ↔ l.Pairwise (· < ·) ∧ ∀ x ∈ l, x < n := by
+  rw [powerset_eq_combos n fuel hf]
+  refine ⟨rfl, ?_, ?_⟩
+  · show List.Pairwise _ _
+    rw [List.pairwise_flatMap]
+    refine ⟨fun k _ => combos_nodup k _ List.nodup_range, ?_⟩
+    refine List.Pairwise.imp ?_ (List.nodup_range (n := n + 1))
+    intro a b hab x hx y hy hxy
+    subst hxy
+    exact hab (((mem_combos _ _ _).mp hx).2.symm.trans ((mem_combos _ _ _).mp hy).2)
+  · intro l
+    simp only [List.mem_flatMap, List.mem_range, mem_combos]
+    rw [List.range_eq_range', sublist_range'_iff]
+    constructor
+    · rintro ⟨k, _, ⟨h1, h2⟩, _⟩; exact ⟨h1, fun x hx => by have := h2 x hx; omega⟩
+    · rintro ⟨h1, h2⟩
+      have hs : l.Sublist (List.range' 0 n) := (sublist_range'_iff l 0 n).mpr ⟨h1, fun x hx => by have := h2 x hx; omega⟩
+      have := hs.length_le
+      simp at this
+      exact ⟨l.length, by omega, ⟨h1, fun x hx => by have := h2 x hx; omega⟩, rfl⟩
+
+/-- **variable_for_loop** (odometer): for every non-empty list of collection sizes it yields every tuple of positions
+exactly once, in lexicographic order (nothing when a collection is empty). -/
+theorem variable_for_loop_complete_nodup (sizes : List Nat) (hne : sizes ≠ []) (fuel : Nat)
+    (hf : (product sizes).length ≤ fuel) :
+    variableForLoop sizes fuel = product sizes ∧ (variableForLoop sizes fuel).Nodup ∧
+    ∀ t, t ∈ variableForLoop sizes fuel ↔
+      t.length = sizes.length ∧ ∀ i, i < sizes.length → (t[i]?).getD 0 < (sizes[i]?).getD 0 := by
+  rw [variableForLoop_eq_product sizes hne fuel hf]
+  exact ⟨rfl, product_nodup sizes, mem_product sizes⟩
+
+/-- **subsets_enumerators_complete_nodup**: the three machines of src/xbt/utils/iter together. -/
+theorem subsets_enumerators_complete_nodup :
+    (∀ k n fuel, 0 < k → 2 ^ n ≤ fuel → (kSubsets k n fuel).Nodup ∧
+      ∀ l, l ∈ kSubsets k n fuel ↔ l.length = k ∧ l.Pairwise (· < ·) ∧ ∀ x ∈ l, x < n) ∧
+    (∀ n fuel, 2 ^ n ≤ fuel → (powerset n fuel).Nodup ∧
+      ∀ l, l ∈ powerset n fuel ↔ l.Pairwise (· < ·) ∧ ∀ x ∈ l, x < n) ∧
+    (∀ sizes fuel, sizes ≠ [] → (product sizes).length ≤ fuel → (variableForLoop sizes fuel).Nodup ∧
+      ∀ t, t ∈ variableForLoop sizes fuel ↔
+        t.length = sizes.length ∧ ∀ i, i < sizes.length → (t[i]?).getD 0 < (sizes[i]?).getD 0) :=
+  ⟨fun k n fuel hk hf => (k_subsets_complete_nodup k n hk fuel hf).2,
+   fun n fuel hf => (powerset_complete_nodup n fuel hf).2,
+   fun sizes fuel hne hf => (variable_for_loop_complete_nodup sizes hne fuel hf).2⟩
+
+example : kSubsets 2 4 16 = [[0, 1], [0, 2], [0, 3], [1, 2], [1, 3], [2, 3]] ∧
+    powerset 3 8 = [[], [0], [1], [2], [0, 1], [0, 2], [1, 2], [0, 1, 2]] ∧
+    variableForLoop [2, 1, 3] 6 = [[0, 0, 0], [0, 0, 1], [0, 0, 2], [1, 0, 0], [1, 0, 1], [1, 0, 2]] := by decide
+
+/-! ### maximal_subsets_iterator -/
+
+section
+variable {pick : List Nat → Option Nat} (hp : PickOk pick) {es : ES} (hv : es.Valid)
+include hp hv
+
+/-- **maximal_subsets_complete_nodup**: for EVERY list `ord` of distinct events in which no event comes before one of its
+(transitive) effects' … precisely: an earlier event is never below a later one (what `get_topological_ordering_of_reverse_
+graph` must deliver: effects before causes), EVERY size limit other than 0 (the C++ `xbt_assert`s on 0) and EVERY hash
+order, the stack machine of `maximal_subsets_iterator` (backtrack points, `Bookkeeper::event_counts`,
+`find_next_candidate_event`, `can_grow_maximal_set`)
+  * is equal to the recursive depth-first enumeration `dfsL`, preceded by the empty set;
+  * never yields the same list twice, yields only sub-lists of `ord`;
+  * yields a sub-list `t` of `ord` iff its events are pairwise causally unrelated and it respects the size limit;
+  * two yielded sets with the same elements are the same: every qualifying subset is yielded exactly once. -/
+theorem maximal_subsets_complete_nodup (ord : List Nat) (hnd : ord.Nodup) (hb : ∀ x ∈ ord, x < es.n)
+    (htopo : ord.Pairwise (fun x y => ¬ Le es x y)) (maxSize : Option Nat) (hm : maxSize ≠ some 0)
+    (fuel : Nat) (hf : 2 ^ ord.length ≤ fuel) :
+    maximalSubsets pick es ord maxSize fuel = [] :: dfsL (okLC pick es) maxSize [] ord ∧
+    (maximalSubsets pick es ord maxSize fuel).Nodup ∧
+    (∀ t ∈ maximalSubsets pick es ord maxSize fuel, t.Sublist ord) ∧
+    (∀ t, t.Sublist ord → (t ∈ maximalSubsets pick es ord maxSize fuel ↔
+        t.Pairwise (fun a b => ¬ Le es a b ∧ ¬ Le es b a) ∧ ∀ mm, maxSize = some mm → t.length ≤ mm)) ∧
+    (∀ t1 ∈ maximalSubsets pick es ord maxSize fuel, ∀ t2 ∈ maximalSubsets pick es ord maxSize fuel,
+        (∀ x, x ∈ t1 ↔ x ∈ t2) → t1 = t2) := by
+  have hself : ∀ x ∈ ord, x ∈ localConfig pick es x :=
+    fun x hx => (local_config_spec hp hv x (hb x hx) x).mpr (Le.refl x)
+  have hlen := dfsL_length (okLC pick es) maxSize ord []
+  have heq := maximalSubsets_eq_dfsL pick es hnd hself maxSize fuel (by omega)
+  have hsub : ∀ t ∈ ([] :: dfsL (okLC pick es) maxSize [] ord : List EventSet), t.Sublist ord := by
+    intro t ht
+    rcases List.mem_cons.mp ht with rfl | ht
+    · simp
+    · obtain ⟨s, _, h2, h3, _⟩ := (mem_dfsL _ _ _ _ _).mp ht
+      simpa [h3] using h2
+  have hok : ∀ c e, (∀ x ∈ c, x < es.n) → (okLC pick es c e = true ↔ ∀ x ∈ c, ¬ Le es e x) := by
+    intro c e hc
+    unfold okLC
+    rw [List.all_eq_true]
+    constructor
+    · intro h x hx hle
+      have := h x hx
+      rw [Bool.not_eq_true', List.elem_eq_mem, decide_eq_false_iff_not] at this
+      exact this ((local_config_spec hp hv x (hc x hx) e).mpr hle)
+    · intro h x hx
+      rw [Bool.not_eq_true', List.elem_eq_mem, decide_eq_false_iff_not]
+      exact fun hm => h x hx ((local_config_spec hp hv x (hc x hx) e).mp hm)
+  rw [heq]
+  refine ⟨rfl, ?_, hsub, ?_, ?_⟩
+  · rw [List.nodup_cons]
+    refine ⟨?_, dfsL_nodup _ _ _ _ hnd⟩
+    intro h
+    obtain ⟨s, h1, _, h3, _⟩ := (mem_dfsL _ _ _ _ _).mp h
+    exact h1 (by simpa using h3.symm)
+  · intro t ht
+    have htb : ∀ x ∈ t, x < es.n := fun x hx => hb x (ht.subset hx)
+    have hgood := good_iff (okLC pick es) (Le es) (· < es.n) hok t [] (by simp) htb
+    have htt : t.Pairwise (fun x y => ¬ Le es x y) := List.Pairwise.sublist ht htopo
+    rw [List.mem_cons, mem_dfsL]
+    constructor
+    · rintro (rfl | ⟨s, h1, h2, h3, h4, h5⟩)
+      · simp
+      · simp only [List.nil_append] at h3
+        subst h3
+        refine ⟨List.Pairwise.and htt (hgood.mp h4).2, ?_⟩
+        intro mm hmm
+        subst hmm
+        simp only [sizeOk, List.length_nil, Nat.zero_add] at h5
+        have : mm ≠ 0 := fun h => hm (by rw [h])
+        omega
+    · rintro ⟨h1, h2⟩
+      by_cases hte : t = []
+      · exact Or.inl hte
+      · right
+        refine ⟨t, hte, ht, by simp, hgood.mpr ⟨by simp, List.Pairwise.imp (fun h => h.2) h1⟩, ?_⟩
+        cases maxSize with
+        | none => trivial
+        | some mm => simp only [sizeOk, List.length_nil, Nat.zero_add]; exact Or.inr (h2 mm rfl)
+  · intro t1 h1 t2 h2 hx
+    exact sublist_ext hnd (hsub t1 h1) (hsub t2 h2) hx
+
+end
+
+/-- non-vacuity: on the corpus unfolding, with the events in decreasing id order (effects before causes), the iterator
+yields the 13 sets of pairwise unrelated events ({4,3,2}, {3,0}, {2,1}, … but never 2 with its cause 0) -/
+example : maximalSubsets pickHead exES [4, 3, 2, 1, 0] none 40 =
+    [[], [4], [4, 3], [4, 3, 2], [4, 2], [3], [3, 2], [3, 0], [2], [2, 1], [1], [1, 0], [0]] ∧
+    maximalSubsets pickHead exES [4, 3, 2, 1, 0] (some 2) 40 =
+    [[], [4], [4, 3], [4, 2], [3], [3, 2], [3, 0], [2], [2, 1], [1], [1, 0], [0]] := by decide
+
+example : ([4, 3, 2, 1, 0] : List Nat).Pairwise (fun x y => ¬ Le exES x y) := by
+  have key : ∀ x y, y < 5 → inHistoryOf pickHead exES x y = false → ¬ Le exES x y := by
+    intro x y hy h hle
+    rw [(in_history_of_spec pickHead_ok exES_valid x y hy).mpr hle] at h
+    cases h
+  refine List.Pairwise.imp_of_mem (R := fun x y => inHistoryOf pickHead exES x y = false) ?_ (by decide)
+  intro a b _ hb h
+  exact key a b (by simp at hb; omega) h
+
+/-! ### get_topological_ordering -/
+
+section
+variable {pick : List Nat → Option Nat} (hp : PickOk pick) {order : Nat → List Nat → List Nat}
+  (hord : ∀ e l, (order e l).Perm l) {es : ES} (hv : es.Valid) (hac : ∀ x, ¬ Lt es x x)
+include hp hord hv hac
+
+/-- **topological_ordering_valid**: on every ACYCLIC event structure (no event strictly below itself), for every set `s`,
+every choice of `*unknown_events.begin()` and every iteration order of the immediate causes (every hash order),
+`EventSet::get_topological_ordering()` — the coloured depth-first search with an explicit stack, as it is since the fix
+e7a2e0d8bb — terminates without raising its cycle exception and returns a list that contains each event of `s` exactly
+once in which no event comes before one of its (transitive) causes. -/
+theorem topological_ordering_valid (s : EventSet) (hs : ∀ x ∈ s, x < es.n) :
+    ∃ out, getTopologicalOrdering true pick order es s = .ok out ∧ out.Nodup ∧ (∀ x, x ∈ out ↔ x ∈ s) ∧
+      out.Pairwise (fun a b => ¬ Lt es b a) := by
+  unfold getTopologicalOrdering
+  by_cases hem : s.isEmpty = true
+  · have : s = [] := List.isEmpty_iff.mp hem
+    subst this
+    exact ⟨[], by simp, by simp, by simp, by simp⟩
+  · simp only [hem, Bool.false_eq_true, if_false]
+    exact topoOuter_ok hp hord hv hac hs s.length ⟨[], [], s, [], [], []⟩
+      ⟨(fun x hx => nomatch hx), List.nodup_nil, (fun x => by simp), List.Pairwise.nil, (List.filter_eq_self.mpr (fun _ _ => rfl)).symm, rfl⟩ (Nat.le_refl _)
+
+/-- the ordering handed to `maximal_subsets_iterator` (`get_topological_ordering_of_reverse_graph`): each event of `s`
+once, and an earlier event is never below-or-equal a later one (effects first) -/
+theorem topological_ordering_of_reverse_graph_valid (s : EventSet) (hs : ∀ x ∈ s, x < es.n) :
+    ∃ ord, getTopologicalOrderingOfReverseGraph true pick order es s = .ok ord ∧ ord.Nodup ∧ (∀ x, x ∈ ord ↔ x ∈ s) ∧
+      ord.Pairwise (fun x y => ¬ Le es x y) := by
+  obtain ⟨out, h1, h2, h3, h4⟩ := topological_ordering_valid hp hord hv hac s hs
+  refine ⟨out.reverse, by simp [getTopologicalOrderingOfReverseGraph, h1], ?_, by simpa using h3, ?_⟩
+  · show List.Pairwise _ _
+    rw [List.pairwise_reverse]
+    exact List.Pairwise.imp (fun h => Ne.symm h) h2
+  · rw [List.pairwise_reverse]
+    refine List.Pairwise.imp ?_ (List.Pairwise.and h2 h4)
+    rintro a b ⟨hne, hlt⟩ hle
+    rcases le_iff_eq_or_lt hle with h | h
+    · exact hne h.symm
+    · exact hlt h
+
+/-- **the iterator as the C++ constructs it** (`maximal_subsets_iterator(events, nullopt, maxSize)`): the ordering computed
+by the constructor satisfies the hypotheses of `maximal_subsets_complete_nodup`, hence for every set `s` of an acyclic
+structure the iteration yields every subset of pairwise causally unrelated events of `s` (within the size limit) exactly
+once — whatever the hash order. -/
+theorem maximal_subsets_of_event_set_complete_nodup (s : EventSet) (hs : ∀ x ∈ s, x < es.n) (maxSize : Option Nat)
+    (hm : maxSize ≠ some 0) (fuel : Nat) (hf : 2 ^ s.length ≤ fuel) :
+    ∃ ord, getTopologicalOrderingOfReverseGraph true pick order es s = .ok ord ∧ (∀ x, x ∈ ord ↔ x ∈ s) ∧
+      (maximalSubsets pick es ord maxSize fuel).Nodup ∧
+      (∀ t, t.Sublist ord → (t ∈ maximalSubsets pick es ord maxSize fuel ↔
+          t.Pairwise (fun a b => ¬ Le es a b ∧ ¬ Le es b a) ∧ ∀ mm, maxSize = some mm → t.length ≤ mm)) ∧
+      (∀ t1 ∈ maximalSubsets pick es ord maxSize fuel, ∀ t2 ∈ maximalSubsets pick es ord maxSize fuel,
+          (∀ x, x ∈ t1 ↔ x ∈ t2) → t1 = t2) := by
+  obtain ⟨ord, h1, h2, h3, h4⟩ := topological_ordering_of_reverse_graph_valid hp hord hv hac s hs
+  have hlen : ord.length ≤ s.length := List.Nodup.length_le_of_subset h2 (fun x hx => (h3 x).mp hx)
+  have hpow : 2 ^ ord.length ≤ fuel := Nat.le_trans (Nat.pow_le_pow_right (by omega) hlen) hf
+  obtain ⟨_, g2, _, g4, g5⟩ := maximal_subsets_complete_nodup hp hv ord h2 (fun x hx => hs x ((h3 x).mp hx)) h4
+    maxSize hm fuel hpow
+  exact ⟨ord, h1, h3, g2, g4, g5⟩
+
+end
+
+/-- regression (finding `topological-ordering-repeats-events-when-immediate-causes-are-related`, fixed by e7a2e0d8bb):
+events 0, 1 (cause 0), 2 (causes 1 AND 0) — the code before the fix (`skipEmitted = false`) emitted event 0 twice, the
+second time after its effect 1; the fixed code emits 0 1 2 -/
+theorem topological_ordering_prefix_regression :
+    getTopologicalOrdering false pickHead (fun _ l => l.reverse) ⟨[[], [0], [1, 0]]⟩ [2, 1, 0] = .ok [0, 1, 0, 2] ∧
+    getTopologicalOrdering true pickHead (fun _ l => l.reverse) ⟨[[], [0], [1, 0]]⟩ [2, 1, 0] = .ok [0, 1, 2] := by
+  decide
+
+theorem exES_acyclic : ∀ x, ¬ Lt exES x x := by
+  apply acyclic_of_decreasing
+  intro e c hc
+  unfold ES.causesOf exES at hc
+  match e with
+  | 0 | 1 => simp at hc
+  | 2 | 3 => simp at hc; omega
+  | 4 => simp at hc; omega
+  | n + 5 => simp at hc
+
+/-- non-vacuity: the corpus unfolding is acyclic; the ordering of {2,3,4,0} computed with "first element / causes in list
+order" puts 0 first, and the theorem applies to it -/
+example : getTopologicalOrdering true pickHead (fun _ l => l) exES [4, 3, 2, 0] = .ok [0, 4, 3, 2] := by decide
+example : ∃ out, getTopologicalOrdering true pickHead (fun _ l => l) exES [4, 3, 2, 0] = .ok out ∧ out.Nodup ∧
+    (∀ x, x ∈ out ↔ x ∈ [4, 3, 2, 0]) ∧ out.Pairwise (fun a b => ¬ Lt exES b a) :=
+  topological_ordering_valid pickHead_ok (fun _ l => List.Perm.refl l) exES_valid exES_acyclic [4, 3, 2, 0]
+    (by decide)
 
 end SgVerif.C44
